@@ -3,6 +3,7 @@ import ImathVerif.Lemmas.RootsLemmas
 import ImathVerif.Lemmas.ColorLemmas
 import ImathVerif.Gen.C17Fun
 import ImathVerif.Gen.C17Roots
+import ImathVerif.Gen.C17Color
 import Mathlib.Analysis.Real.Sqrt
 /-!
 # C17 — scalar, root-finding and colour utilities equal their mathematical definitions
@@ -942,6 +943,106 @@ theorem rgb2packed_packed2rgb_exact (toU : α → Nat) (hU : ∀ n : Nat, toU (n
   ⟨by rw [rgb2packed_packed2rgb_exact_C4 toU hU, bytes_reassemble p hp],
    fun h => by rw [rgb2packed_packed2rgb_exact_V3 toU hU]; exact bytes_reassemble_V3 p hp h⟩
 end Colour
+
+/-! ## ImathColorAlgo.cpp: the regenerated bodies are the hand model (T-route tie)
+
+`Gen/C17Color.lean` is produced on every run by compiling /repo's `ImathColorAlgo.cpp` with the token `double`
+defined as the symbolic scalar (harness/sym/sym_c17c.cpp) and enumerating every path.  `int (std::floor (hue))` appears
+there as the if-chain `floorR hue = 0`, `= 1`, ... on an uninterpreted `floorR : α → α`; instantiating it with the cast of
+an integer-valued `fl` gives exactly the `match` of the hand model, so every theorem about `ColorAlgo.hsv2rgbV3` etc.
+(round trips, ranges, Color4 = Vec3 copies) is a theorem about what the source says now. -/
+section ColourLink
+variable {α : Type} [Field α] [LinearOrder α] [IsStrictOrderedRing α]
+
+def toV3 (v : ImathVerif.V3 α) : ColorAlgo.V3 α := ⟨v.x, v.y, v.z⟩
+def toC4 (c : ImathVerif.C4 α) : ColorAlgo.C4 α := ⟨c.r, c.g, c.b, c.a⟩
+
+theorem cast_eq_lits (i : Int) : ((((i : Int) : α) = 0) ↔ i = 0) ∧ ((((i : Int) : α) = 1) ↔ i = 1) ∧ ((((i : Int) : α) = 2) ↔ i = 2) ∧
+    ((((i : Int) : α) = 3) ↔ i = 3) ∧ ((((i : Int) : α) = 4) ↔ i = 4) ∧ ((((i : Int) : α) = 5) ↔ i = 5) := by
+  have c : ∀ k : Int, (((i : Int) : α) = ((k : Int) : α)) ↔ i = k := fun k => Int.cast_inj
+  have e0 := c 0; have e1 := c 1; have e2 := c 2; have e3 := c 3; have e4 := c 4; have e5 := c 5
+  simp only [Int.cast_zero, Int.cast_one, Int.cast_ofNat] at e0 e1 e2 e3 e4 e5
+  exact ⟨e0, e1, e2, e3, e4, e5⟩
+
+theorem int_sextant (i : Int) : i = 0 ∨ i = 1 ∨ i = 2 ∨ i = 3 ∨ i = 4 ∨ i = 5 ∨
+    (i ≠ 0 ∧ i ≠ 1 ∧ i ≠ 2 ∧ i ≠ 3 ∧ i ≠ 4 ∧ i ≠ 5) := by omega
+
+/-- `Vec3<double> hsv2rgb_d`: the tree extracted from the current source, with `floorR x := ↑(fl x)`, is the hand model -/
+theorem gen_hsv2rgbV3 (fl : α → Int) (c : ImathVerif.V3 α) :
+    toV3 (Gen.Color.hsv2rgbV3 (fun x => ((fl x : Int) : α)) c) = ColorAlgo.hsv2rgbV3 fl (toV3 c) := by
+  obtain ⟨h, s, v⟩ := c
+  simp only [Gen.Color.hsv2rgbV3, toV3]
+  unfold ColorAlgo.hsv2rgbV3
+  simp only [beq_iff_eq]
+  by_cases h1 : h = 1
+  · simp only [h1, if_true]
+    generalize fl 0 = i
+    rcases int_sextant i with rfl | rfl | rfl | rfl | rfl | rfl | ⟨n0, n1, n2, n3, n4, n5⟩
+    all_goals first | (simp; done) | (norm_num; done) | (obtain ⟨e0, e1, e2, e3, e4, e5⟩ := cast_eq_lits (α := α) i; simp only [e0, e1, e2, e3, e4, e5, n0, n1, n2, n3, n4, n5, if_false]; try (split <;> simp_all))
+  · simp only [h1, if_false]
+    generalize fl (h * 6) = i
+    rcases int_sextant i with rfl | rfl | rfl | rfl | rfl | rfl | ⟨n0, n1, n2, n3, n4, n5⟩
+    all_goals first | (simp; done) | (norm_num; done) | (obtain ⟨e0, e1, e2, e3, e4, e5⟩ := cast_eq_lits (α := α) i; simp only [e0, e1, e2, e3, e4, e5, n0, n1, n2, n3, n4, n5, if_false]; try (split <;> simp_all))
+
+/-- `Color4<double> hsv2rgb_d` (the second textual copy in the .cpp) -/
+theorem gen_hsv2rgbC4 (fl : α → Int) (c : ImathVerif.C4 α) :
+    toC4 (Gen.Color.hsv2rgbC4 (fun x => ((fl x : Int) : α)) c) = ColorAlgo.hsv2rgbC4 fl (toC4 c) := by
+  obtain ⟨h, s, v, a⟩ := c
+  simp only [Gen.Color.hsv2rgbC4, toC4]
+  unfold ColorAlgo.hsv2rgbC4
+  simp only [beq_iff_eq]
+  by_cases h1 : h = 1
+  · simp only [h1, if_true]
+    generalize fl 0 = i
+    rcases int_sextant i with rfl | rfl | rfl | rfl | rfl | rfl | ⟨n0, n1, n2, n3, n4, n5⟩
+    all_goals first | (simp; done) | (norm_num; done) | (obtain ⟨e0, e1, e2, e3, e4, e5⟩ := cast_eq_lits (α := α) i; simp only [e0, e1, e2, e3, e4, e5, n0, n1, n2, n3, n4, n5, if_false]; try (split <;> simp_all))
+  · simp only [h1, if_false]
+    generalize fl (h * 6) = i
+    rcases int_sextant i with rfl | rfl | rfl | rfl | rfl | rfl | ⟨n0, n1, n2, n3, n4, n5⟩
+    all_goals first | (simp; done) | (norm_num; done) | (obtain ⟨e0, e1, e2, e3, e4, e5⟩ := cast_eq_lits (α := α) i; simp only [e0, e1, e2, e3, e4, e5, n0, n1, n2, n3, n4, n5, if_false]; try (split <;> simp_all))
+
+set_option maxHeartbeats 1600000 in
+/-- `Vec3<double> rgb2hsv_d`: 64 extracted paths (the order of the three components, max = 0, sat = 0, hue < 0) = the hand model -/
+theorem gen_rgb2hsvV3 (c : ImathVerif.V3 α) : toV3 (Gen.Color.rgb2hsvV3 c) = ColorAlgo.rgb2hsvV3 (toV3 c) := by
+  obtain ⟨x, y, z⟩ := c
+  simp only [Gen.Color.rgb2hsvV3, ColorAlgo.rgb2hsvV3, toV3, gt_iff_lt, bne_iff_ne, ne_eq, beq_iff_eq]
+  by_cases h1 : y < x <;> by_cases h2 : z < x <;> by_cases h3 : y < z <;> by_cases h4 : x < y <;> by_cases h5 : x < z <;>
+    by_cases h6 : z < y <;>
+    first
+    | (exfalso; order)
+    | (simp only [h1, h2, h3, h4, h5, h6, if_true, if_false]; split_ifs <;> first | rfl | (exfalso; simp_all; done) | simp_all)
+
+set_option maxHeartbeats 1600000 in
+/-- `Color4<double> rgb2hsv_d` (the second textual copy) -/
+theorem gen_rgb2hsvC4 (c : ImathVerif.C4 α) : toC4 (Gen.Color.rgb2hsvC4 c) = ColorAlgo.rgb2hsvC4 (toC4 c) := by
+  obtain ⟨x, y, z, a⟩ := c
+  simp only [Gen.Color.rgb2hsvC4, ColorAlgo.rgb2hsvC4, toC4, gt_iff_lt, bne_iff_ne, ne_eq, beq_iff_eq]
+  by_cases h1 : y < x <;> by_cases h2 : z < x <;> by_cases h3 : y < z <;> by_cases h4 : x < y <;> by_cases h5 : x < z <;>
+    by_cases h6 : z < y <;>
+    first
+    | (exfalso; order)
+    | (simp only [h1, h2, h3, h4, h5, h6, if_true, if_false]; split_ifs <;> first | rfl | (exfalso; simp_all; done) | simp_all)
+
+/-- the round trip of the property, stated on the REGENERATED definitions (corollary of the tie and of `hsv2rgb_rgb2hsv`):
+for every colour with non-negative components, hsv2rgb (rgb2hsv c) = c as extracted from the current source -/
+theorem gen_hsv2rgb_rgb2hsv {fl : α → Int} (hfl : IsFloor fl) (x y z : α) (hx : 0 ≤ x) (hy : 0 ≤ y) (hz : 0 ≤ z) :
+    Gen.Color.hsv2rgbV3 (fun t => ((fl t : Int) : α)) (Gen.Color.rgb2hsvV3 ⟨x, y, z⟩) = ⟨x, y, z⟩ := by
+  have h1 := gen_hsv2rgbV3 fl (Gen.Color.rgb2hsvV3 ⟨x, y, z⟩)
+  have h2 := gen_rgb2hsvV3 (α := α) ⟨x, y, z⟩
+  rw [h2] at h1
+  have h3 := (hsv2rgb_rgb2hsv hfl).1 x y z hx hy hz
+  simp only [toV3] at h1 h3
+  rw [h3] at h1
+  have e := congrArg (fun v : ColorAlgo.V3 α => (⟨v.x, v.y, v.z⟩ : ImathVerif.V3 α)) h1
+  simp only [toV3] at e
+  generalize Gen.Color.hsv2rgbV3 (fun t => ((fl t : Int) : α)) (Gen.Color.rgb2hsvV3 ⟨x, y, z⟩) = w at e ⊢
+  cases w; exact e
+
+/-- non-vacuity: the regenerated round trip on a concrete colour of ℚ with the true floor -/
+example : Gen.Color.hsv2rgbV3 (α := ℚ) (fun t => ((Int.floor t : Int) : ℚ)) (Gen.Color.rgb2hsvV3 ⟨1 / 4, 1 / 2, 3 / 4⟩) = ⟨1 / 4, 1 / 2, 3 / 4⟩ :=
+  gen_hsv2rgb_rgb2hsv (fun y => ⟨Int.floor_le y, Int.lt_floor_add_one y⟩) _ _ _ (by norm_num) (by norm_num) (by norm_num)
+
+end ColourLink
 
 example : IsFloor (α := ℚ) Int.floor := fun y => ⟨Int.floor_le y, Int.lt_floor_add_one y⟩
 example : hsv2rgbV3 (α := ℚ) Int.floor (rgb2hsvV3 ⟨1 / 4, 1 / 2, 3 / 4⟩) = ⟨1 / 4, 1 / 2, 3 / 4⟩ :=
